@@ -52,6 +52,23 @@ def gen_setpwm(r, tier):
         ts = [r.range(-50, 305) for _ in range(20)] + [r.pick(sorted(pm)) for _ in range(5)]
         for t in ts:
             ops.append(f"w.setpwm t={t}")
+        # "for every PWM map": also for a map that REPLACES an earlier one on the same controller (re-detected / re-scaled
+        # map: same supported inputs, other outputs; or an unrelated one), with the same requests again (seed C12d)
+        for _ in range(r.pick([0, 0, 1, 2])):
+            if r.chance(0.6):
+                ks = sorted(pm)
+                style = r.below(3)
+                if style == 0:
+                    pm = {k: min(255, (pm[k] * 2) // 3 + 1) if pm[k] else 0 for k in ks}   # re-scaled, same plateaus
+                elif style == 1:
+                    pm = {k: 255 - pm[k] for k in ks}                                       # inverted
+                else:
+                    pm = {k: (pm[k] + 7) % 256 for k in ks}
+            else:
+                pm = streams.gen_pwm_map(r)
+            ops.append(f"w.setmap map={streams.int_map_tok(pm)}")
+            for t in ts[:12] + [r.range(-50, 305) for _ in range(4)]:
+                ops.append(f"w.setpwm t={t}")
     return ops
 
 
@@ -71,7 +88,7 @@ def closest_contract(op, go_line, lean_line):
 class C12(Prop):
     id = "C12"
     lean_modules = ["Fan2go.Props.C12"]
-    fact_modules = ["Fan2go.Props.Trans"]
+    fact_modules = ["Fan2go.Props.Trans", "Fan2go.Props.Trans2FindClosest", "Fan2go.Props.Trans2Keys"]
     rule = ("closest: exhaustive key sets over a small universe x requests -50..305 + random full-size key sets; "
             "distinct: PWM-map shapes (identity, sparse, quantiser, plateau, non-monotone, constant, single); "
             "setpwm: real controller.setPwm on a virtual device (hwmon / file fans) or on real scripts (cmd fans). non-trivial = distinct (|keys|>=2, request strictly "
@@ -118,6 +135,9 @@ class C12(Prop):
                 m = parse_int_map(kv(cops[1])["map"])
                 keys = distinct_keys(m)
                 for i in range(2, len(cops)):
+                    if cops[i].startswith("w.setmap"):
+                        m = parse_int_map(kv(cops[i])["map"])
+                        keys = distinct_keys(m)
                     if not cops[i].startswith("w.setpwm"):
                         continue
                     t = int(kv(cops[i])["t"])
